@@ -374,6 +374,11 @@ class SynEngine:
             tag = 'all-dont-care' if all(c == 0 for c in care) else ('some-dont-care' if any(c != (1 << L) - 1 for c in care) else 'total')
             self.violate('find-raised', f'{exc_name(exc)}@{where}:{tag}', f'{desc}: {exc_name(exc)}: {exc}')
             return
+        from ..util import digest as _dg
+
+        self.res.states.add('case:' + _dg([n, N, [v & c for v, c in zip(vals, care)], care, sorted(set(basis_tts)), normalized,
+                                            sorted((g, sorted(fx.items())) for g, fx in cons['fix'].items()), sorted(cons['forbid']),
+                                            'exc' if exc is not None else 'circuit']))
         est = leaves_estimate(n, N, len(set(basis_tts)))
         exists = None
         if est <= self.cfg['brute_budget'] * 20:
